@@ -34,6 +34,24 @@ CHECKS = {
             "0..64 outside the legal set and whitespace-bearing hex are run through the real encoder; sentences are decoded word by "
             "word through the pinned official list (SHA-256 2f5eed53...) and compared bit for bit.",
             "DESIGN.md §4 C04", ""),
+    "C17": ("exploration", "E1 product",
+            "bounded exhaustive enumeration of index lists, a single-fault path grammar and deep paths vs reference grammar and reference derivation",
+            "All 9,331 index lists of <=5 levels x both roots x three marker styles for format/parse identity; by_path against the "
+            "reference derivation and iterated ckd; every fault token at every component position of four base paths (must raise on "
+            "full and watch-only wallets); every 6..8-level (thorough ..12) path over {0,1'} must be honoured in full or refused.",
+            "DESIGN.md §4 C17", "lenient Python numerals (+1, ' 1', 1_0, unicode digits) and a trailing '/' are counted, not judged"),
+    "C12": ("exploration", "E1 product",
+            "bounded exhaustive enumeration of all application parameters x boundary indexes x masters vs reference BIP85",
+            "For each master every word count, every byte count 16..64, every password length 20..86, WIF and XPRV at indexes "
+            "{0,1,2^31-1,seeded} are derived by the real code and compared with a reference BIP85 over a reference BIP32; the "
+            "out-of-range grid on both sides of every bound (incl. negative indexes) must raise; results pairwise distinct.",
+            "DESIGN.md §4 C12", ""),
+    "C20": ("exploration", "E6 cli",
+            "bounded exhaustive enumeration of argument vectors within <=1 / <=2 deviations of each command default, in-process with directory snapshots, subprocess conformance subset",
+            "Every argument vector within the deviation ball is executed through the real main(); each outcome must be REFUSED (status!=0, "
+            "no wallet token on stdout, directory unchanged) or SERVED (JSON identical to the library API for the same inputs, reference "
+            "paranoia filter, BIP44-shaped rows, pre-existing paths untouched); clearly good vectors must be served, clearly bad refused.",
+            "DESIGN.md §4 C20", "in-process seam validated against real subprocess runs on a fixed subset each run"),
 }
 
 NOT_YET = "check not built yet in this session (work in progress; see DESIGN.md §9 build order)"
